@@ -88,7 +88,27 @@ def name_of(ref):
     return ref[0] if isinstance(ref, tuple) else ref
 
 
+def noop_dilute():
+    """a dilute step whose target is the current concentration, with a solvent the container does not hold: the direct
+    operation returns the container as it is; the recipe step must do the same"""
+    dmso = Substance.liquid('dmso', 78.13, 1.1)
+    c = Container('c', '50 mL', [(water, '5 mL'), (salt, '100 mg')])
+    cur = c.get_concentration(salt, 'M')
+    r = Recipe().uses(c)
+    r.dilute(c, salt, f'{cur} M', dmso)
+    want = contents(c.dilute(salt, f'{cur} M', dmso))
+    try:
+        got = contents(r.bake()['c'])
+    except Exception as e:
+        return [f"a dilute step to the current concentration with a solvent that is not in the container: bake raised {e!r}, "
+                f"the direct operation returns {want}"]
+    return [] if same(got, want) else [f"no-op dilute step: bake gives {got}, the direct operation {want}"]
+
+
 def replay(kind, clause):
+    if kind.startswith('dilute') and 'safe[' in clause:
+        f = noop_dilute()
+        return {'ok': not f, 'observed': f or 'bake = eager fold', 'expected': 'bake = eager fold'}
     env, prog = scenario(kind)
     # ---- recipe
     r = Recipe()
